@@ -104,6 +104,8 @@ impl<Error: Send + 'static> DecodeScheduler<Error> {
 					NextStep::End => break,
 				},
 				Err(error) => {
+					#[cfg(kira_verif)]
+					crate::verif::point("decode_error", Arc::as_ptr(&self.shared) as usize, 0);
 					self.error_producer.push(error).ok();
 					self.shared.encountered_error.store(true, Ordering::SeqCst);
 				}
@@ -114,6 +116,8 @@ impl<Error: Send + 'static> DecodeScheduler<Error> {
 	pub fn run(&mut self) -> Result<NextStep, Error> {
 		// if the sound was manually stopped, end the thread
 		if self.shared.state() == PlaybackState::Stopped {
+			#[cfg(kira_verif)]
+			crate::verif::point("decode_end", Arc::as_ptr(&self.shared) as usize, 0);
 			return Ok(NextStep::End);
 		}
 		// if the frame ringbuffer is full, sleep for a bit
@@ -149,6 +153,8 @@ impl<Error: Send + 'static> DecodeScheduler<Error> {
 		self.transport.increment_position(self.num_frames);
 		if !self.transport.playing {
 			self.shared.reached_end.store(true, Ordering::SeqCst);
+			#[cfg(kira_verif)]
+			crate::verif::point("decode_end", Arc::as_ptr(&self.shared) as usize, 1);
 			return Ok(NextStep::End);
 		}
 		Ok(NextStep::Continue)
